@@ -6,6 +6,8 @@ import (
 	"math/rand"
 	"reflect"
 	"strings"
+	p1model "verifharness/world/p1/model"
+	p2model "verifharness/world/p2/model"
 
 	"verifharness/core"
 	"verifharness/world"
@@ -228,6 +230,52 @@ func (p c06) argMethods(c *core.Ctx) {
 	}
 }
 
+// sameNamedTypes: one holder with by-type points of two types that print alike (`*model.Item`, `model.Linker`
+// declared in two packages with the same base name): every point receives the components of ITS type.
+func (p c06) sameNamedTypes(c *core.Ctx) {
+	g := world.NewG(c.Rng)
+	for x, nx := 0, c.Rng.Intn(3); x < nx; x++ {
+		g.AddRandomNode(world.TypesEagerPlain, 0.2)
+	}
+	g.ShuffleOrders()
+	i1, i2 := &p1model.Item{Tag: "p1"}, &p2model.Item{Tag: "p2"}
+	la, lb := &world.LinkA{Nm: "link-a"}, &world.LinkB{Nm: "link-b"}
+	fields := []world.FieldSpec{
+		{Name: "A", Type: reflect.TypeOf(i1), Tag: `wire:""`},
+		{Name: "B", Type: reflect.TypeOf(i2), Tag: `wire:""`},
+		{Name: "SA", Type: reflect.SliceOf(reflect.TypeOf(i1)), Tag: `wire:""`},
+		{Name: "SB", Type: reflect.SliceOf(reflect.TypeOf(i2)), Tag: `wire:""`},
+		{Name: "LA", Type: reflect.TypeOf((*p1model.Linker)(nil)).Elem(), Tag: `wire:""`},
+		{Name: "LB", Type: reflect.TypeOf((*p2model.Linker)(nil)).Elem(), Tag: `wire:""`},
+	}
+	c.Rng.Shuffle(len(fields), func(i, j int) { fields[i], fields[j] = fields[j], fields[i] })
+	h := world.NewHolder(world.BuildStruct(fields))
+	r := world.Start(g.Sc, world.Options{Extra: []any{h, i1, i2, la, lb}})
+	c.Count("starts", 1)
+	c.Count("starts_with_same_named_types", 1)
+	detail := failDetail(g.Sc, r, map[string]any{"field_order": fmt.Sprint(fields)})
+	if r.Outcome() != "ok" {
+		c.Fail("", "holder with by-type points of two types that print alike did not start: "+core.Short(r.OutcomeDetail(), 300), detail)
+		return
+	}
+	hv := reflect.ValueOf(h).Elem()
+	want := map[string]any{"A": i1, "B": i2, "LA": la, "LB": lb}
+	for name, w := range want {
+		if got := hv.FieldByName(name).Interface(); got != w {
+			c.Fail("", fmt.Sprintf("field %s (%s) holds %v, expected the registered %T", name, hv.FieldByName(name).Type(), got, w), detail)
+			return
+		}
+	}
+	for name, w := range map[string]any{"SA": i1, "SB": i2} {
+		f := hv.FieldByName(name)
+		if f.Len() != 1 || f.Index(0).Interface() != w {
+			c.Fail("", fmt.Sprintf("slice field %s (%s) holds %d element(s), expected exactly the registered %T", name, f.Type(), f.Len(), w), detail)
+			return
+		}
+	}
+	c.Nontrivial("samenamed|" + g.Sc.GraphSig() + fmt.Sprint(fields[0].Name, fields[1].Name))
+}
+
 // funcPointers: func points on concretely typed fields (*T, []*T) over a population that mixes an unnamed
 // instance of T with named ones: the slice receives every instance exposing the method (with a matching
 // result), the single point one of them per the ranking.
@@ -288,6 +336,10 @@ func (p c06) Run(c *core.Ctx) {
 	}
 	if c.Index%25 == 4 {
 		p.argMethods(c)
+		return
+	}
+	if c.Index%25 == 24 {
+		p.sameNamedTypes(c)
 		return
 	}
 	mix := TagMix{ByType: 3, Func: 1.2, POptional: 0.45}
